@@ -1,4 +1,4 @@
-import PqModel.ResetHist
+import PqModel.ResetHistBridge
 
 /-! # C17 — level histograms / size statistics: the bytes after `Reset` depend on the new pages only
 
@@ -58,6 +58,19 @@ example :
         [.page ⟨[0, 1, 0], [2, 2, 0], 4, 0, 0⟩]) =
       { sizeUnencoded := 4, sizeRep := some [2, 1], sizeDef := some [1, 0, 2],
         indexRep := some [2, 1], indexDef := some [1, 0, 2] } := by decide
+
+/-- **reset_models_agree**: the histogram fields of the field-level model (`Reset.lean`: `levelHist`,
+`pageLevelHists`, `totalUnencoded`) are the live parts of this model's state (`Refines`), a fresh column
+of the one refines a fresh state of the other, and the column reset of `Reset.lean` (repaired or not)
+acts on those fields as this model's reset does — so `reset_equiv` (Props/C17: the fields after Reset
+are a fresh writer's) and `stats_after_reset` (the bytes computed from such fields) compose. -/
+theorem reset_models_agree (clr : Bool) (c : PqModel.Reset.Col) (s : ColStats) (h : Refines c.vol s) :
+    Refines (PqModel.Reset.colResetFixed c).vol (step clr s .reset) ∧
+    Refines (PqModel.Reset.colResetAsIs c).vol (step clr s .reset) :=
+  refines_reset clr c s h
+
+example : Refines (PqModel.Reset.ColVol.fresh ⟨⟨0, 1⟩, ⟨0, 1⟩, ⟨0, 1⟩, ⟨0, 1⟩, 2, 0, 2, 0, 5⟩) (ColStats.fresh 1 2) :=
+  refines_fresh _ 1 2 (by decide)
 
 /-- the per-page block written by the clearing append is the spec's histogram of the page whatever the
 slice's spare capacity holds (the function-level statement the L2 sub-check `hist` ties to the code) -/
